@@ -73,6 +73,7 @@ def run(tier, seed):
     chk.proof(hc.MODULES['C09'], hc.THEOREMS['C09'])
     nlow, nseg, nmsg = hc.sizes(tier)
     runs = hc.low_level(chk, nlow)
+    hc.api_level(chk, hc.api_size(tier))
     for r in runs:
         for i, op, mop, tag, before, after in hc.steps(r):
             if tag != 'ok' or mop == 'N':
